@@ -2,7 +2,7 @@
    Statements only.  Model: db/Merge.v (tied to src/db/mod.rs, group.rs, entry.rs by the merge
    correspondence run).  Component-level idempotence is proved here; the tree-level statement
    is carried by the correspondence sweep and listed as partial in the evidence. *)
-From KP Require Import Bytes Outcome Tree TreeFacts History Merge MergeProofs.
+From KP Require Import Bytes Outcome Tree TreeFacts History Merge MergeProofs MergeLookup MergeTermination MergeUuids.
 
 (* a second merge of the same source group changes nothing and reports nothing *)
 Theorem c13_group_merge_idem : forall now d s d' lg,
@@ -22,3 +22,12 @@ Theorem c13_tombstones_only_grow : forall now d s d' lg,
   merge now d s = Ok (d', lg) ->
   exists added, db_deleted d' = db_deleted d ++ added /\ incl added (db_deleted s).
 Proof. exact merge_tombstones_monotone. Qed.
+
+(* the deletion phase keeps UUIDs unique and a group root a group, so a second merge starts from a
+   well-formed tree again *)
+Theorem c13_deletions_keep_wellformed : forall now root deleted src_deleted,
+  uuids_unique (children_of root) ->
+  exists root' deleted' lg,
+    merge_deletions now root deleted src_deleted = Ok (root', deleted', lg)
+    /\ uuids_unique (children_of root') /\ is_group root' = is_group root.
+Proof. exact merge_deletions_ok. Qed.
